@@ -222,6 +222,14 @@ class LookupClient(Client):
                 continue
             if txt.endswith('.format') or txt in ('tuple', 'int'):
                 continue
+            # a function of the module that only computes a value (a display name for the log record)
+            g_ = self.model.mod.functions.get(fn.id) if isinstance(fn, ast.Name) else None
+            if g_ is None and isinstance(fn, ast.Attribute) and isinstance(fn.value, ast.Name) and fn.value.id in ('self', 'cls'):
+                g_ = self.model.sm.find_method(fn.attr)
+                if g_ is not None and g_.kind not in ('staticmethod',):
+                    g_ = None
+            if g_ is not None and self.model.repo.is_pure_function(g_):
+                continue
             eff = eff + (('call', txt),)
         return (world, vars_, eff)
 
